@@ -51,20 +51,26 @@ Proof.
   - rewrite Ht. reflexivity.
 Qed.
 
-Lemma wf_field_args S root fields tf :
+Lemma wf_field_args_both S root fields tf :
   schema_wf S = true -> In (TSType root) S -> direct_fields root = Some fields -> In tf fields ->
-  NoDup (def_names (fd_argdefs tf)).
+  NoDup (def_names (fd_argdefs tf)) /\ forall d, In d (fd_argdefs tf) -> ty_wf (iv_type d) = true.
 Proof.
   intros Hwf Hin Hd Htf. unfold schema_wf in Hwf.
   rewrite !andb_true_iff in Hwf. destruct Hwf as [[Hwf _] _]. rewrite forallb_forall in Hwf. specialize (Hwf _ Hin).
-  assert (Ht : NoDup (def_names (fd_argdefs typename_field))) by constructor.
-  destruct root; cbn in Hd; try discriminate; injection Hd as <-; cbn in Hwf.
+  assert (Ht : NoDup (def_names (fd_argdefs typename_field)) /\ forall d, In d (fd_argdefs typename_field) -> ty_wf (iv_type d) = true).
+  { split; [constructor | intros d []]. }
+  destruct root; cbn in Hd; try discriminate; injection Hd as <-; cbn beta iota in Hwf.
   - apply in_app_or in Htf as [Htf|[<-|[]]]; [|exact Ht].
-    rewrite forallb_forall in Hwf. apply nodup_str_NoDup. exact (Hwf _ Htf).
+    rewrite forallb_forall in Hwf. apply names_distinct_parts. exact (Hwf _ Htf).
   - apply in_app_or in Htf as [Htf|[<-|[]]]; [|exact Ht].
-    rewrite forallb_forall in Hwf. apply nodup_str_NoDup. exact (Hwf _ Htf).
+    rewrite forallb_forall in Hwf. apply names_distinct_parts. exact (Hwf _ Htf).
   - destruct Htf as [<-|[]]. exact Ht.
 Qed.
+
+Lemma wf_field_args S root fields tf :
+  schema_wf S = true -> In (TSType root) S -> direct_fields root = Some fields -> In tf fields ->
+  NoDup (def_names (fd_argdefs tf)).
+Proof. intros Hwf Hin Hd Htf. apply (wf_field_args_both S root fields tf Hwf Hin Hd Htf). Qed.
 
 (** * Possible types *)
 
@@ -236,9 +242,8 @@ Section Walk.
     intros Hin Hdf Hfind Hargs Ht Hleaf.
     assert (Hcomp : is_composite root = true) by (apply direct_fields_composite; eauto).
     pose proof (direct_fields_sp root fields (iname name) Hdf) as Hsp. rewrite Hfind in Hsp.
-    assert (Hnd : NoDup (def_names (fd_argdefs tf))).
-    { apply (wf_field_args S root fields tf Hwf Hin Hdf). apply (find_some _ _ Hfind). }
-    destruct (check_arguments_sound S vars Hwf _ _ _ _ _ Hnd Hargs) as [A1 [A2 [A3 A4]]].
+    destruct (wf_field_args_both S root fields tf Hwf Hin Hdf (proj1 (find_some _ _ Hfind))) as [Hnd Hty].
+    destruct (check_arguments_sound S vars Hwf _ _ _ _ _ Hnd Hty Hargs) as [A1 [A2 [A3 A4]]].
     split; [|split].
     - intros r. destruct r; try reflexivity; cbn [site_ok arg_sites]; rewrite <- ?Hsp.
       + rewrite Hcomp. reflexivity.
